@@ -229,6 +229,13 @@ func (x *Exec) specIdent(env *SpecEnv, name string) TV {
 			}
 		}
 	}
+	// synthetic package members (init$guard)
+	if env.pkg != nil && strings.Contains(name, "$") {
+		if g, ok := env.pkg.Members[name].(*ssa.Global); ok {
+			p := x.globalPtr(g)
+			return TV{x.Load(env.state(), p), p.Elem}
+		}
+	}
 	specFail("unknown identifier %q", name)
 	return TV{}
 }
